@@ -631,8 +631,7 @@ pub fn finish(
     let mut total = 0u64;
     let mut seen: BTreeSet<u64> = BTreeSet::new();
     for r in reports {
-      let key = if property == "C14" { "c14.enum" } else { "c13.enum" };
-      if let (Some(t), Some(i)) = (r.facts.get(&format!("{key}.total")), r.facts.get(&format!("{key}.index"))) {
+      if let (Some(t), Some(i)) = (r.facts.get("enum.total"), r.facts.get("enum.index")) {
         total = *t;
         seen.insert(*i);
       }
@@ -640,7 +639,9 @@ pub fn finish(
     if total > 0 {
       exhaustive = seen.len() as u64 == total;
       enumerated = json!({
-        "what": if property == "C14" {
+        "what": if property == "C12" {
+          "for one small chain: every partition of its blocks into update calls x every commit interval from 1 to the chain length x {no reopen, reopen between all calls}, each compared with the single-update reference"
+        } else if property == "C14" {
           "for one small history: a reorganisation of every depth from 1 to savepoint interval x max savepoints (the upper part is beyond what ord classifies as recoverable), landing at every occurrence of every named point of the update (block received, before / between / after the two commits, savepoint deleted / created, after savepoints, commit done)"
         } else {
           "every mutating disk operation and every hit of every named point of one small history, each under the clean, torn and all-written recovery image"
